@@ -6,6 +6,7 @@ import RactorModel.Lemmas.FactoryShape
 import RactorModel.Lemmas.FactoryDrain
 import RactorModel.Lemmas.FactoryHooks
 import RactorModel.Lemmas.FactoryActors
+import RactorModel.Lemmas.FactoryLimitRun
 
 /-!
 # C15 — Factory capacity controls: limits, rate, pool size, draining
@@ -159,6 +160,50 @@ is the invariant "never more than `L` waiting jobs after a dispatch has been pro
 theorem limit_dispatch (w : W) (j : Job) (L : Nat) (m : Mode) (hd : w.disc = some (L, m))
     (hdisc : discardable w.cfg j = true) : (w.dispatch j).queue.length ≤ max L w.queue.length :=
   dispatch_queue_le w j L m hd hdisc
+
+/-! ## The discard limit over whole runs -/
+
+open Factory in
+/-- (limit, run level, Oldest) For every configuration with `DiscardSettings::Static { limit: L, mode: Oldest }`
+and EVERY sequence of operations that does not change the discard settings — dispatches with any keys/TTLs,
+completions, worker failures and kills, resizes, handler updates, drain, clock advances, a factory held busy —
+the factory queue holds at most `L` jobs at every quiescent point, for both queue types, every router and with or
+without a rate limiter. (Audit C15 §5.1: the one-step lemma `limit_oldest` lifted to runs. Proof: apart from
+`maybe_enqueue` every function leaves a SUBLIST of the queue, `Lemmas/FactoryLimitRun.lean`.) -/
+theorem queue_limit_oldest_run (c : CaseCfg) (L : Nat) (hd : c.disc = some (L, .oldest)) (steps : List Step)
+    (hk : steps.all (fun s => s.op.keepsDisc) = true) :
+    ((init c).runSteps steps).queue.length ≤ L :=
+  (lim_always (meas_oldest L) c hd (Nat.zero_le _) steps hk).bound
+
+open Factory in
+/-- (limit, run level, Newest) same quantification with mode `Newest`: the factory queue never holds more than
+`L` waiting DISCARDABLE jobs (with the priority queue, non-discardable jobs are admitted beyond the limit — that
+is what `is_discardable` is for). -/
+theorem queue_limit_newest_run (c : CaseCfg) (L : Nat) (hd : c.disc = some (L, .newest)) (steps : List Step)
+    (hk : steps.all (fun s => s.op.keepsDisc) = true) :
+    (((init c).runSteps steps).queue.filter (discardable ((init c).runSteps steps).cfg)).length ≤ L :=
+  (lim_always (meas_newest L) c hd (Nat.zero_le _) steps hk).bound
+
+open Factory in
+/-- … and the settings really stay what they were -/
+theorem disc_settings_constant_run (c : CaseCfg) (steps : List Step) (hk : steps.all (fun s => s.op.keepsDisc) = true) :
+    ((init c).runSteps steps).disc = c.disc :=
+  (lim_always (D := c.disc) (μ := fun _ _ => 0) (L := 0) ⟨fun _ _ _ _ => Nat.le_refl _, fun _ _ _ => Nat.zero_le _⟩
+    c rfl (Nat.le_refl _) steps hk).disc
+
+open Factory in
+def limRunCase : CaseCfg :=
+  { cfg := { router := .q, prioQueue := false, hasHandler := true, table := [], hasCC := false }, n := 1,
+    disc := some (1, .oldest), rl := none }
+open Factory in
+def limRunSteps : List Step :=
+  [⟨.nop, 0, 2000000, 3000000⟩, ⟨.dispatch 1 1 0 none false, 3000000, 4000000, 5000000⟩,
+   ⟨.dispatch 2 2 0 none false, 5000000, 6000000, 7000000⟩, ⟨.dispatch 3 3 0 none false, 7000000, 8000000, 9000000⟩,
+   ⟨.dispatch 4 4 0 none false, 9000000, 10000000, 11000000⟩]
+open Factory in
+/-- non-vacuity: the bound is reached (worker busy with job 1, job 4 waits, jobs 2 and 3 were shed) -/
+example : limRunSteps.all (fun s => s.op.keepsDisc) = true ∧ ((init limRunCase).runSteps limRunSteps).queue.map (·.id) = [4] := by
+  decide +kernel
 
 /-! ## Discard limit on the worker queues (`enqueue_job`, worker-queueing routers) -/
 
@@ -510,6 +555,9 @@ end C15
 #print axioms C15.newest_sheds_incoming_once
 #print axioms C15.oldest_sheds_each_once
 #print axioms C15.limit_dispatch
+#print axioms C15.queue_limit_oldest_run
+#print axioms C15.queue_limit_newest_run
+#print axioms C15.disc_settings_constant_run
 #print axioms C15.limit_worker_queue
 #print axioms C15.limit_worker_oldest
 #print axioms C15.rate_limited_dispatch
